@@ -116,6 +116,8 @@ func (c *Config) GetKpasswdServers(realm string, tcp bool) (int, map[int]string,
 }
 
 func randServOrder(ks []string) map[int]string {
+	// work on a copy: ks aliases the configuration's own server list and is permuted below
+	ks = append([]string(nil), ks...)
 	kdcs := make(map[int]string)
 	count := len(ks)
 	i := 1
